@@ -68,6 +68,12 @@ fn check(st: &mut St, cfg: &CfgD, pristine: &Emf, entry: &EntryD) {
 
 fn main() {
     let mut rep = Report::from_args("C03", "exploration");
+    if let Some(path) = rep.replay.clone() {
+        // re-run exactly the recorded (config, entry) case on a fresh real formatter
+        let ok = vh_seq::emfx::replay_file(&path);
+        println!("REPLAY {}", if ok { "no violation reproduced" } else { "violation reproduced" });
+        std::process::exit(if ok { 0 } else { 1 })
+    }
     let ls = layers(rep.tier);
     let states = walk(&ls, St::default, |st, _l, cfg, pristine, entry| check(st, cfg, pristine, entry));
     let mut shapes = BTreeSet::new();
